@@ -852,6 +852,36 @@ let run_decjson payload =
   | [t] -> L [A "decision"; A (if dec_decision (json_of_sx t) then "allow" else "deny")]
   | _ -> failwith "decjson payload"
 
+(* ---- conform: Validator.Entity / Entities / Request verdicts (Impl/Conform.v) ---- *)
+let acts_of_info acts =
+  List.map (function
+      | L [L [A "e"; A t; A i]; L [A "context"; cx]; _; L (A "applies" :: ap)] ->
+        ((str_of_atom t, str_of_atom i),
+         (match ap with
+          | [A "none"] -> None
+          | [L (A "principals" :: pr); L (A "resources" :: rr)] ->
+            let ctx = (match cx with L (A "rec" :: fs) -> crec_of_rsx fs | _ -> []) in
+            Some ((List.map (fun x -> str_of_atom (atom x)) pr, List.map (fun x -> str_of_atom (atom x)) rr), ctx)
+          | _ -> failwith "info applies"))
+      | _ -> failwith "info action (conform)") acts
+
+let run_conform payload =
+  match payload with
+  | [_; L [A "info"; L (A "entities" :: es); L (A "enums" :: ens); L (A "actions" :: acts)]; L (A "enumvals" :: evs); store; L [A "req"; p; a; r; c]] ->
+    let sch = tschema_of_info es ens acts in
+    let acts' = acts_of_info acts in
+    let enums = List.map (function L (A n :: ids) -> (str_of_atom n, List.map (fun x -> str_of_atom (atom x)) ids) | _ -> failwith "enumvals") evs in
+    let rec dedup = function [] -> [] | x :: r -> x :: dedup (List.filter (fun y -> y <> x) r) in
+    let rec last_wins = function [] -> [] | (u, e) :: r -> if List.exists (fun (u2, _) -> u2 = u) r then last_wins r else (u, e) :: last_wins r in
+    let st = last_wins (List.map (fun (u, e) -> (u, { e with e_parents = dedup e.e_parents })) (store_of_sx store)) in
+    let uid_sx (t, i) = L [A "e"; A (atom_of_str t); A (atom_of_str i)] in
+    let b x = A (if x then "1" else "0") in
+    let per = List.sort compare (List.map (fun (u, e) -> to_string (L [uid_sx u; b (check_entity sch enums (u, e))])) st) in
+    let ctx = (match value_of_sx c with VRecord kvs -> kvs | _ -> failwith "conform: context") in
+    L [A "conform"; L (A "entities" :: List.map parse per); L [A "all"; b (check_entities sch enums st)];
+       L [A "request"; b (check_request sch acts' (uid_of_sx p) (uid_of_sx a) (uid_of_sx r) ctx)]]
+  | _ -> failwith "conform payload"
+
 (* ---- coerce: schema-guided coercion of one value along one declared type (Impl/Coerce.v) ---- *)
 let run_coerce payload =
   match payload with
@@ -888,6 +918,7 @@ let run_vverdict payload =
 let run_case kind payload =
   match kind with
   | "vverdict" -> run_vverdict payload
+  | "conform" -> run_conform payload
   | "coerce" -> run_coerce payload
   | "coercetags" -> run_coercetags payload
   | "rjsonenc" -> run_rjsonenc payload
